@@ -4,6 +4,7 @@ import (
 	"fmt"
 	"io"
 	"math"
+	"regexp"
 	"strconv"
 	"strings"
 	"time"
@@ -20,6 +21,28 @@ var stringPool = []string{
 	"ünï©ödé", "日本語", "emoji😀", "/ip4/1.2.3.4/tcp/26656", "http://host:7980/path?q=1&r=2", "tcp://0.0.0.0:26657",
 	"12D3KooWQ@/ip4/127.0.0.1/tcp/7676,12D3KooWR@/dns/x/tcp/1", ":26660", "Null", "TRUE", "0", "00", "1e+21", "=", "<<",
 }
+
+var expFloatRe = regexp.MustCompile(`^[-+]?(\.[0-9]+|[0-9]+(\.[0-9]*)?)[eE][-+]?[0-9]+$`)
+var infNanRe = regexp.MustCompile(`^([-+]?\.(inf|Inf|INF)|\.(nan|NaN|NAN))$`)
+
+// Exotic reports string values on which the YAML writer used by SaveAsYaml (goccy/go-yaml) and the
+// reader used by Load (viper, yaml.v3) are known to disagree; they go through `savex`, whose
+// outcome the model does not predict (the monitor classifies the cause).
+func Exotic(s string) bool {
+	return strings.Contains(s, "\r") || s == "?" || strings.HasPrefix(s, "? ") || expFloatRe.MatchString(s) || infNanRe.MatchString(s)
+}
+
+func safeStrings() []string {
+	var out []string
+	for _, s := range stringPool {
+		if !Exotic(s) {
+			out = append(out, s)
+		}
+	}
+	return out
+}
+
+var exoticPool = []string{"1e3", "1e+21", "12e4", "00e1", "5E-2", ".inf", "-.inf", ".nan", ".NaN", "?", "? a", "cr\rlf", "\r", "end\r"}
 
 func uintPool(bits int) []string {
 	out := []string{"0", "1", "2", "7", "1000", "4294967296"}
@@ -71,6 +94,13 @@ func pool(f Field) []string {
 		return durationPool
 	}
 	return nil
+}
+
+func savePool(f Field) []string {
+	if f.Kind == "string" {
+		return safeStrings()
+	}
+	return pool(f)
 }
 
 // pick a value of the field's type outside `not` (when the type has enough values)
@@ -210,6 +240,9 @@ func (g *gen) randGenesis() {
 // Gen writes the op lines. Every field and every flag discovered in the compiled code is covered
 // in every run (both tiers); the tiers differ in how many values and combinations are drawn.
 func Gen(r *hx.Rng, tier string, w io.Writer) {
+	// hx.NewRng(seed) starts at seed*gamma: consecutive seeds give shifted copies of one sequence.
+	// Re-seed from an output so that different seeds give unrelated streams.
+	r = hx.NewRng(r.U64() ^ 0xC18C18C18)
 	g := &gen{r: r, w: w, fs: Fields()}
 	g.fl, _ = Flags(false)
 	reps, saves, nGenesis := 1, 2, 60
@@ -262,7 +295,7 @@ func Gen(r *hx.Rng, tier string, w io.Writer) {
 	// 4. save -> load: one option at a time with values of its type, then many at once
 	for _, f := range opts {
 		fmt.Fprintln(w, "reset")
-		p := pool(f)
+		p := savePool(f)
 		n := len(p)
 		if tier != "thorough" && n > saves*4 {
 			n = saves * 4
@@ -270,13 +303,19 @@ func Gen(r *hx.Rng, tier string, w io.Writer) {
 		for _, i := range r.Perm(len(p))[:n] {
 			fmt.Fprintf(w, "save set=%s\n", showPairs([]pair{{f.Go, p[i]}}))
 		}
+		if f.Kind == "string" {
+			for _, i := range r.Perm(len(exoticPool))[:saves] {
+				fmt.Fprintf(w, "savex set=%s\n", showPairs([]pair{{f.Go, exoticPool[i]}}))
+			}
+		}
 	}
 	fmt.Fprintln(w, "reset")
 	for i := 0; i < saves*10; i++ {
 		var set []pair
 		for _, f := range opts {
 			if r.Chance(50) {
-				set = append(set, pair{f.Go, pick(r, f)})
+				p := savePool(f)
+				set = append(set, pair{f.Go, p[r.Intn(len(p))]})
 			}
 		}
 		fmt.Fprintf(w, "save set=%s\n", showPairs(set))
